@@ -189,6 +189,41 @@ theorem C08_tensor2_inside (r : IRule) (h : insideBox r = true) : insideBox (ten
 theorem C08_tensor3_inside (r : IRule) (h : insideBox r = true) : insideBox (tensor3 r) = true := by
   exact tensor3_inside r h
 
+/-- **prism nodes lie in the closed prism**: every node of the tensor rule is a triangle node
+    (non-negative coordinates with sum ≤ 1, scaled by `2^S`) followed by a line node in `[0, 1]` -/
+theorem C08_prism_inside (tri line : IRule) (hS : tri.S = line.S)
+    (h1 : insideSimplex tri = true) (h2 : insideBox line = true) :
+    ∀ p ∈ (tensorPrism tri line).pts, ∃ a b, p.1 = a ++ b
+      ∧ (∀ x ∈ a, 0 ≤ x) ∧ a.sum ≤ 2 ^ (tensorPrism tri line).S
+      ∧ (∀ x ∈ b, 0 ≤ x ∧ x ≤ 2 ^ (tensorPrism tri line).S) := by
+  intro p hp
+  simp only [tensorPrism, List.mem_flatMap, List.mem_map] at hp
+  obtain ⟨pl, hpl, pt, hpt, rfl⟩ := hp
+  simp only [insideSimplex, List.all_eq_true, Bool.and_eq_true, decide_eq_true_eq] at h1
+  simp only [insideBox, List.all_eq_true, Bool.and_eq_true, decide_eq_true_eq] at h2
+  refine ⟨pt.1, pl.1, rfl, (h1 pt hpt).1, (h1 pt hpt).2, ?_⟩
+  intro x hx
+  have := h2 pl hpl x hx
+  simp only [tensorPrism]
+  rw [hS]; exact this
+
+/-- the weights of the prism rule sum to (triangle weight sum) × (line weight sum) -/
+theorem C08_prism_weights (tri line : IRule) :
+    ((tensorPrism tri line).pts.map (·.2)).sum
+      = (tri.pts.map (·.2)).sum * (line.pts.map (·.2)).sum := by
+  simp only [tensorPrism]
+  induction line.pts with
+  | nil => simp
+  | cons pl rest ih =>
+    simp only [List.flatMap_cons, List.map_append, List.sum_append, List.map_cons, List.sum_cons, ih,
+      List.map_map]
+    have : (List.map ((fun x => x.2) ∘ fun pt => (pt.1 ++ pl.1, pl.2 * pt.2)) tri.pts).sum
+        = pl.2 * (tri.pts.map (·.2)).sum := by
+      induction tri.pts with
+      | nil => simp
+      | cons q qs ih2 => simp only [List.map_cons, List.sum_cons, Function.comp, ih2]; ring
+    rw [this]; ring
+
 /-- non-vacuity: the generated tables are non-empty and the lookup finds the rules -/
 example : (lookupTri Gen.triTable 5).isSome = true := by decide +kernel
 example : (lookupTri Gen.triTable 0) = some Gen.tri_2 := by decide +kernel
